@@ -6,6 +6,7 @@ import AcraModel.Keystore.V1Lemmas
 import AcraModel.Keystore.RefineV1Step
 import AcraModel.Keystore.RefineV2Step
 import AcraModel.Keystore.RefineCacheStep
+import AcraModel.Keystore.RefineCacheMono3
 /-!
 # C06 — rotation keeps old data readable; destruction removes exactly the chosen key
 
@@ -309,6 +310,41 @@ theorem cache_stale_after_rotation_counterexample :
     ((V1.init 0).run [.gen ss0, .gen ss0, .gen ss0, .reset, .cur ss0, .gen ss0, .drot ss0 4, .all ss0, .reset, .all ss0]).2 =
       [.ok, .ok, .ok, .ok, .key 3, .ok, .ok, .keys [3, 2, 1], .ok, .keys [4, 2, 1]] := by decide +kernel
 
+/-- **cache_invariant.** What every operation other than destroy-current keeps of a cached v1 store
+(`V1.MInv`, any cache size): the storage invariant of `v1_refines_spec`; a cached "current" key of a
+slot is some generation of that slot – possibly an older one, never a foreign value or a marker –; a
+cached history entry equals its file; a cached list of names is the directory's. Moreover an
+operation changes the cached current key of a slot only by forgetting it or by setting it to the
+slot's newest generation. -/
+theorem cache_invariant (st : V1) (o : Op) (hm : st.MInv) (ho : o.isDcur = false) :
+    (st.step o).1.MInv ∧
+    ∀ s v, (st.step o).1.look (.rel (privFile s)) = some v →
+      st.look (.rel (privFile s)) = some v ∨ v = .key ((st.step o).1.count s) :=
+  V1.step_minv st o hm ho
+
+/-- **cache_monotone.** For every cache size `c` and every run without destroy-current: if a read-all
+of slot `s` offers generation `g`, and `g` still survives after any further operations `ops2` (resets
+and reopens included) – survives according to the specification run over the same operations –, then a
+read-all after `ops2` succeeds and still offers `g`. A warm cache may offer *more* (a destroyed key it
+cached as current, `cache_stale_after_rotation_counterexample` (3)) and may lack the newest generation
+until `Reset` (1), but it never stops offering a surviving key it offered before. -/
+theorem cache_monotone (c : Int) (ops1 ops2 : List Op) (s : Slot) (g : Nat) (l1 : List Nat)
+    (h1 : ∀ o ∈ ops1, o.isDcur = false) (h2 : ∀ o ∈ ops2, o.isDcur = false)
+    (hobs : (((V1.init c).run ops1).1.step (.all s)).2 = .keys l1) (hg : g ∈ l1)
+    (halive : g ∈ ((Spec.runApi .v1 Spec.init (ops1 ++ .all s :: ops2)).1 s).survivors) :
+    ∃ l2, ((((((V1.init c).run ops1).1.step (.all s)).1.run ops2).1).step (.all s)).2 = .keys l2 ∧ g ∈ l2 := by
+  have hm1 := V1.run_minv ops1 (V1.init c) (V1.MInv.init c) h1
+  apply V1.cache_monotone _ hm1 ops2 s g h2 l1 hobs hg
+  have hall : ∀ o ∈ ops1 ++ .all s :: ops2, o.isDcur = false := by
+    intro o ho
+    rcases List.mem_append.1 ho with ho | ho
+    · exact h1 o ho
+    · rcases List.mem_cons.1 ho with rfl | ho
+      · rfl
+      · exact h2 o ho
+  rw [← V1.abs_run_cached c _ hall, V1.run_append] at halive
+  exact halive
+
 /-! ## non-vacuity -/
 
 /-- A history with three generations: index 2 lists the oldest key, destroying it leaves 3 and 2. -/
@@ -322,5 +358,31 @@ example : let fs := ((V1.init (-1)).run [.gen ss0, .gen ss0, .gen ss0]).1.fs
 
 example : Ring.Distinct ⟨[⟨1, .preActive, some 1⟩, ⟨2, .preActive, some 2⟩], some 2⟩ := by
   simp [Ring.Distinct]
+
+/-- the refinement hypotheses are satisfiable by a history that uses every kind of operation, and the
+specification's observations on it are not trivial -/
+example :
+    let ops := [Op.gen sp0, .gen sp0, .gen sp0, .gen ss0, .listRot, .drot sp0 2, .all sp0, .cur sp0, .pub sp0, .list, .reopen, .all sp0]
+    (∀ o ∈ ops, o.isDcur = false ∧ o.idxOk = true) ∧ genFirst (fun _ => false) ops = true ∧
+    (Spec.runApi .v1 Spec.init ops).2 =
+      [.ok, .ok, .ok, .ok, .rotated [((sp0, false), 2), ((sp0, true), 2)], .ok, .keys [3, 2], .key 3, .key 3,
+        .files [(sp0, false), (sp0, true), (ss0, false)], .ok, .keys [3, 2]] ∧
+    (Spec.runApi .v2 Spec.init ops).2 =
+      [.ok, .ok, .ok, .ok, .rotated [((sp0, false), 2)], .ok, .keys [3, 2], .key 3, .key 3,
+        .files [(sp0, false), (ss0, false)], .ok, .keys [3, 2]] := by decide +kernel
+
+/-- the run invariants hold initially -/
+example : (V1.init (-1)).Inv ∧ V2.init.Inv ∧ (V1.init 1).MInv ∧ (V1.init 0).clear.Coh :=
+  ⟨V1.Inv.init, V2.Inv.init, V1.MInv.init 1, V1.Coh.clear _⟩
+
+/-- `cache_reset_exact`: a continuation with reads, listing and a destroy-rotated satisfies the hypothesis -/
+example : ∀ o ∈ [Op.all ss0, .listRot, .drot ss0 2, .all ss0, .cur ss0], o.keepsCoh = true := by decide
+
+/-- `cache_monotone`: a bounded cache (one entry), two generations, read-all offers `[2, 1]`; after a
+rotation and a read both keys still survive in the specification -/
+example :
+    (((V1.init 1).run [.gen ss0, .gen ss0]).1.step (.all ss0)).2 = .keys [2, 1] ∧
+    1 ∈ ((Spec.runApi .v1 Spec.init ([Op.gen ss0, .gen ss0] ++ .all ss0 :: [.gen ss0, .cur ss0])).1 ss0).survivors := by
+  decide +kernel
 
 end AcraModel.Props.C06
